@@ -338,9 +338,9 @@ pub fn run(ctx: &Ctx) -> i32 {
     for p in progs.iter().take(4) {
         ctx.sample(json!({"program": p.name, "text": fw::clip(&p.text, 160)}));
     }
-    histories(ctx, &progs, &iso, ctx.tier.pick(200u64, 5_000u64));
-    schedules(ctx, &progs, &iso, ctx.tier.pick(40u64, 400u64), false);
-    schedules(ctx, &progs, &iso, ctx.tier.pick(20u64, 400u64), true);
+    histories(ctx, &progs, &iso, ctx.tier.pick(200u64, 20_000u64));
+    schedules(ctx, &progs, &iso, ctx.tier.pick(40u64, 1_000u64), false);
+    schedules(ctx, &progs, &iso, ctx.tier.pick(20u64, 1_000u64), true);
     // one sample history for the evidence
     {
         let mut rng = Rng::for_case(ctx.seed, 0xC17_A, 0);
@@ -352,7 +352,7 @@ pub fn run(ctx: &Ctx) -> i32 {
     let _ = std::fs::remove_dir_all(&scratch);
     fw::finish(
         ctx,
-        "pool of ~67 programs (32 hand-made ones whose symbols, macros, #defines, aliases, devices and messages collide by name across programs, valid and failing; 30 generated ones; 5 build_file programs sharing an include directory); isolated results from 8 (thorough 64) fresh processes per program (also decides hash-order independence); 200 (5000) random sequential histories of 20-100 builds; 60 (800) concurrent rounds of 2-16 threads x 10-50 builds released by a barrier, half of them with yields injected at the build and line hooks; BUILD-hook invariant (empty tables, default device) at every build start; DEVICES fingerprint; Miri leg; distinct_nontrivial = distinct histories and rounds",
+        "pool of ~67 programs (32 hand-made ones whose symbols, macros, #defines, aliases, devices and messages collide by name across programs, valid and failing; 30 generated ones; 5 build_file programs sharing an include directory); isolated results from 8 (thorough 64) fresh processes per program (also decides hash-order independence); 200 (20000) random sequential histories of 20-100 builds; 60 (2000) concurrent rounds of 2-16 threads x 10-50 builds released by a barrier, half of them with yields injected at the build and line hooks; BUILD-hook invariant (empty tables, default device) at every build start; DEVICES fingerprint; Miri leg; distinct_nontrivial = distinct histories and rounds",
         &[
             "builds share only the immutable DEVICES table; the monitors aim at making introduced sharing visible, not at enumerating schedules",
             "fingerprint = hash of the complete BuildResult or error text",
